@@ -280,7 +280,7 @@ def g_replace(rng):
         d += rng.weighted([(b"a", 3), (b"{x}", 3), (b"{yy}", 2), (b" ", 1), (b"{", 1), (b"x", 1)])
     keys = [(b"{x}", rng.choice([b"", b"1", b"{yy}", b"longer-than-key", b"{x}"])), (b"{yy}", rng.choice([b"Q", b"", b"{x}"])), (b"a", b"aa"), (b"zz", b"n")]
     if rng.chance(1, 8):
-        keys.append((b"", rng.choice([b"", b"x"])))         # an empty key (filtered out by allowed() while the defect is open)
+        keys.append((b"", rng.choice([b"", b"x"])))         # an empty key: skipped since e241384, an endless loop before
     n = rng.range(0, 3)
     sel = [keys[rng.below(len(keys))] for _ in range(n)]
     return " ".join([hx(d)] + [hx(x) for kv in sel for x in kv])
@@ -553,8 +553,7 @@ def sweep(rng, full):
             L.append("uuid " + hx(UUID0[:8] + B + UUID0[9:]))
             L.append("uuid " + hx(UUID0[:35] + B))
             L.append("csv 48 %s" % hx(B + b"a"))
-            if FACTS.get("strto_clears") or os.environ.get("VERIF_SAFETY_OPEN"):
-                L.append("wstrtoll " + hx(b"1" + B))
+            L.append("wstrtoll " + hx(b"1" + B))
         # length delimited entry points take every byte, 0 included
         L.append("csv 40 %s %s" % (hx(B), hx(B)))
         L.append("atoi2 " + hx(b"1" + B + b"2"))
@@ -620,23 +619,6 @@ def rootless(t):
     if t.startswith(BOM):
         t = t[3:]
     return t.lstrip(b" \t\n\r,")[:1] == b"]"
-
-
-def allowed(cmd):
-    """open library defects (notes/safety.md, deepening round): queries that run into them are generated only once the
-    tree is fixed (T1 fact) or when VERIF_SAFETY_OPEN is set"""
-    if os.environ.get("VERIF_SAFETY_OPEN"):
-        return True
-    a = cmd.split()
-    if a[0] == "wstrtoll":
-        return bool(FACTS.get("strto_clears"))
-    if a[0] == "jbl" and not FACTS.get("json_rootless"):
-        return not rootless(bytes.fromhex(a[1]) if a[1] != "-" else b"")
-    if a[0] in ("jblpatch", "jblmerge") and not FACTS.get("json_rootless"):
-        return not any(rootless(bytes.fromhex(x) if x != "-" else b"") for x in a[1:3])
-    if a[0] == "replace" and not FACTS.get("replace_empty"):
-        return all(k != "-" for k in a[2::2])             # no empty key
-    return True
 
 
 SHORT1 = b"]},[{\"':\\01-.enNtf ~/\x80\xffa;#=()|*+?^$\t\n"
@@ -775,8 +757,7 @@ def gen(rng, n):
         L.append("sde " + hx(g_sde(rng)))
         L.append("uuid " + hx(g_uuid(rng)))
         L.append("csv " + g_csv(rng))
-        if FACTS.get("strto_clears") or os.environ.get("VERIF_SAFETY_OPEN"):
-            L.append("wstrtoll " + hx(g_wstrtoll(rng)))
+        L.append("wstrtoll " + hx(g_wstrtoll(rng)))
         L.append("patch %s %s" % (hx(rng.choice(DOCS)), hx(g_patch(rng))))
         pi = g_patch_idx(rng)
         L.append("patch %s %s" % (hx(rng.choice([b"[1,2]", b"[]", DOCS[0], DOCS[1]])), hx(pi)))
@@ -993,13 +974,13 @@ def check(run):
     rng = run.rng
     proofs_ok = run.proofs()
     read_facts()
+    run.cov["variant_facts"] = dict(FACTS)
     asan = vlib.build_harness("h_safety", "asan")
     model = vlib.build_model("safety")
     n = 300 if run.tier == "quick" else 40000
     if not proofs_ok:
         n *= 10
     cmds = load_corpus() + sweep(rng, run.tier != "quick") + sweep_short(run.tier != "quick") + gen(rng, n)
-    cmds = [c for c in cmds if allowed(c)]
     # de-duplicate, keep order
     seen, uniq = set(), []
     for c in cmds:
